@@ -90,7 +90,10 @@ def gen_cases(ctx):
     yield mk("degenerate", np.array([[1., 2, 3], [0, 1, 0], [0, 0, 1]]), np.array([[1., 2], [0, 1], [0, 0]]), False,
              corpus="shape", deg="shape")
     yield mk("degenerate", np.array([[-1., 1, 1], [1, 1, 0], [1, 0, -2]]), np.array([[0., 0, 0], [1, -2, -3], [0, 0, 0]]), False,
-             corpus="axis-y-not-refused (absolute eps in the rank test)", deg="axis")
+             corpus="F12: axis-y input was not refused before fix ec73582 (absolute eps in the rank test)", deg="axis")
+    yield mk("degenerate", np.repeat(np.array([[0.1], [0.2], [0.3]]), 7, axis=1),
+             np.array([[1., 2, 3, 4, 0, 1, 5], [0, 1, 0, 2, 7, 1, 1], [1, 1, 0, 0, 2, 3, 9]]), False,
+             corpus="coincident non-dyadic x (float mean inexact): needs the absolute floor of the rank test", deg="coincident")
     kinds = ["generic", "generic", "noisy", "noisy", "mirrored", "mirrored", "planar", "planar", "offset", "scales",
              "grid", "degenerate", "collinear", "tiny-n", "independent"]
     for k in range(budget):
@@ -369,26 +372,17 @@ def judge(ctx, case, impl, outs):
     if not impl["inputs_unchanged"]:
         ctx.fail(case, "inputs-unmodified", "umeyama_alignment modified an input array")
     if impl.get("err") == "CRASH":
-        ctx.fail(case, "refused-with-geometry-error", "exception other than GeometryException: " + impl["msg"])
+        ctx.fail(case, "no-unexpected-exception", "exception other than GeometryException: " + impl["msg"])
         ctx.record(case, False)
         return
     same_shape = x.shape == y.shape
     cov, d = (conditioning(x, y) if same_shape and n >= 1 else (None, None))
     well = same_shape and n >= 3 and d[1] > 1e-9 * d[0] + 1e-12 and d[0] > 0
     # ---------------- refusal: correspondence (exact classes, well-conditioned inputs) + oracle
-    deg_tags = None
     if m_class in (1, 2, 3):
         ctx.count("branch", {1: "refuse-shape", 2: "refuse-coincident", 3: "refuse-axis"}[m_class])
         if not refused:
-            # evo's rank test compares the float singular values with the ABSOLUTE threshold eps: an exactly
-            # rank-deficient covariance can pass it (d2 ~ 1e-16*d1 > 2.2e-16). Tagged so that it can be matched
-            # as a known finding; the correspondence mismatch is suppressed only when it is matched.
-            deg_tags = {"clause": "degenerate-refused", "class": {1: "shape", 2: "coincident", 3: "axis"}[m_class],
-                        "float_rank_test": "passed" if (d is not None and d[1] > np.finfo(float).eps) else "n/a"}
-            if core.match_known(ctx.prop, deg_tags, ctx.known):
-                ctx.count("branch", "refusal-missed-known-finding")
-            else:
-                ctx.mismatch(case, "model refuses (exact degenerate class %d), evo returns a result" % m_class, impl.get("c"), "REFUSED")
+            ctx.mismatch(case, "model refuses (exact degenerate class %d), evo returns a result" % m_class, impl.get("c"), "REFUSED")
     elif m_class == 4:
         ctx.count("branch", "rank-deficient-other")
         ctx.skipped += 1      # collinear off-axis / n<=2: the float rank test may go either way
@@ -400,11 +394,9 @@ def judge(ctx, case, impl, outs):
             ctx.skipped += 1
     o_deg = (not same_shape) or is_coincident(x) or is_coincident(y) or is_on_axis(x) or is_on_axis(y)
     if o_deg and not refused:
-        tags = deg_tags or {"clause": "degenerate-refused",
-                            "class": "shape" if not same_shape else "coincident" if (is_coincident(x) or is_coincident(y)) else "axis",
-                            "float_rank_test": "passed" if (d is not None and d[1] > np.finfo(float).eps) else "n/a"}
+        tags = {"class": "shape" if not same_shape else "coincident" if (is_coincident(x) or is_coincident(y)) else "axis"}
         ctx.fail(case, "degenerate-refused", "unequal sizes / coincident / one-axis input was not refused"
-                 + (f" (singular values of the covariance {d.tolist()}, threshold is the absolute eps)" if d is not None else ""), tags)
+                 + (f" (singular values of the covariance {d.tolist()})" if d is not None else ""), tags)
     if refused:
         if well and not o_deg:
             ctx.fail(case, "determined-input-not-refused", f"input with singular values {d.tolist()} refused: {impl['msg']}")
@@ -596,7 +588,7 @@ def evaluate(ctx, cases):
 OPEN = ["numpy.linalg.svd is not modelled: the theorems start from the certificate umeCert 0; the driver checks umeCert with "
         "eps = 2^-30 (relative) on evo's float output; 'certificate up to eps => optimal up to O(eps)' is argued, not formalised",
         "refusal of nearly rank-deficient inputs (collinear off-axis, n <= 2) depends on float rounding of the singular values "
-        "against the absolute threshold eps = 2.2e-16: counted as skipped, not compared",
+        "against the relative threshold 3*eps*d_max: counted as skipped, not compared",
         "umeyama_noise_free is proved for point sets whose scatter matrix is non-singular (rank 3); planar (rank-2) recovery "
         "is only tested by the oracle",
         "equivariance: proved as the residual identity under similarity maps and permutations (minimiser sets correspond); "
